@@ -40,17 +40,17 @@ META = {
     "rule": "every case is generated from its own 40-bit sub-seed drawn from ctx.rng (stored in the case, so it replays "
             "exactly). corpus: 6 fixed multi-system scenarios run first (kept int64 time tensors re-used after forwards, systems "
             "assigned from each other's .systime or from one shared tensor and stepped/reset in interleaved order, shape-(1,) "
-            "tensors, LTV.set_refpoint(t=kept tensor)); multi (400 / 6000): 2-3 systems, 8-18 tagged events, times from literals, "
-            "kept 0-dim / shape-(1,) int64 tensors, other systems' clocks; clock (600 quick / 8000 thorough histories): kind lti|ltv|nls x 8-16 events (call, raising call, direct "
+            "tensors, LTV.set_refpoint(t=kept tensor)); multi (400 / 5000): 2-3 systems, 8-18 tagged events, times from literals, "
+            "kept 0-dim / shape-(1,) int64 tensors, other systems' clocks; clock (600 quick / 6000 thorough histories): kind lti|ltv|nls x 8-16 events (call, raising call, direct "
             "forward/state_transition/observation, reset, systime=, 1-dim tensor (raises), set_refpoint) x 12 ways of writing a "
             "time (python int/float/negative float/bool/huge int, 0-dim int64/int32/float64/float32 tensors, ladder "
-            "-3..40,1000); lin (600 / 10000): lti | ltv indexed by _t | ltv indexed by _t % T, dims 1..4, 9 batch layouts with "
+            "-3..40,1000); lin (600 / 8000): lti | ltv indexed by _t | ltv indexed by _t % T, dims 1..4, 9 batch layouts with "
             "independently broadcast sub-batches of A,B,C,D,c1,c2,x,u, 0-dim states, optional constants, float64/float32, "
             "magnitudes 1e-3..1e3, 3-8 events with feedback roll-outs, wrong dimensions, slice index out of range; nls "
-            "(500 / 9000): nx 1..3, nu 1..2, trees of depth <= 4 (+ - * neg sin cos pow 0..3, shared sub-trees, time variable), "
+            "(500 / 7000): nx 1..3, nu 1..2, trees of depth <= 4 (+ - * neg sin cos pow 0..3, shared sub-trees, time variable), "
             "4-10 events + in-place updates of the caller's tensors, jacargs changes, views (call, set_refpoint with x,u None or given and t None | sys.systime | fresh tensor | kept int64 tensor, reset, "
             "systime= (also from a kept tensor), a second system exchanging times, read); lin histories also get kept-tensor "
-            "assignments and a second system; bmv (300 / 6000): bmv, bvv, bvmv on broadcast batches, LieTensor argument, out=. A case is non-trivial "
+            "assignments and a second system; bmv (300 / 5000): bmv, bvv, bvmv on broadcast batches, LieTensor argument, out=. A case is non-trivial "
             "when it contains a completed call or a read, and distinct by (stream, kind, dims, batch layout, dtype, "
             "event-kind sequence, tree operator multiset).",
     "trusted": ["torch.autograd.functional.jacobian / autograd of built-in ops (contract: returns the derivative of the "
@@ -67,6 +67,10 @@ META = {
                  "with guarded surroundings, stride-0 expansions); the same tensor as two arguments; in-place updates by the caller of matrices, "
                  "states, reference tensors and kept time tensors between calls; jacargs changed between reads; per-call varied batch shapes and "
                  "0-dim/1-D states on one object",
+    "hardening2": "copies (deepcopy, pickle, torch.save/load, state_dict) of systems used interleaved with the originals in multi / lin / nls; "
+                  "grad modes (requires_grad, no_grad, inference_mode where autograd is not needed); keyword vs positional spellings; out= buffers; "
+                  "LieTensor for every bmv/bvv/bvmv argument; user functions that raise inside forward / set_refpoint; outputs own their memory; "
+                  "identity / zero matrices; batch sizes 5, 7, 3x3 and equal to n, m, p, T",
     "partial": ["IEEE rounding is not modelled: the float code is compared with the exact model at 64·eps·(sum of "
                 "absolute term magnitudes)",
                 "second-order constant K in nls_second_order is existential (not computed); the harness checks the "
@@ -402,13 +406,44 @@ def make_simple(P, kind):
     if kind == "ltv":
         return P.module.LTV(torch.tensor([[2.0]]), torch.tensor([[1.0]]), torch.tensor([[1.0]]), torch.tensor([[0.0]]))
 
-    class N(P.module.NLS):
-        def state_transition(self, state, input, t=None):
-            return state * 0.5 + input
+    return simple_nls_class(P)()
 
-        def observation(self, state, input, t=None):
-            return state - input
-    return N()
+
+def simple_nls_class(P):
+    """module-level (hence picklable) time dependent NLS: f = x/2 + u + t, g = x - u"""
+    if "SimpleNLS" not in globals():
+        class SimpleNLS(P.module.NLS):
+            def state_transition(self, state, input, t=None):
+                return state * 0.5 + input + torch.as_tensor(t).reshape(()).to(state.dtype)
+
+            def observation(self, state, input, t=None):
+                return state - input
+        SimpleNLS.__qualname__ = "SimpleNLS"
+        globals()["SimpleNLS"] = SimpleNLS
+    return globals()["SimpleNLS"]
+
+
+COPY_HOWS = ["deepcopy", "deepcopy", "pickle", "torchsave", "state_dict"]
+
+
+def copy_system(sys_, how, fresh):
+    """a copy of a system by one of the mechanisms that work on the clean tree; `fresh()` builds a new object of the same
+    class and constructor arguments (for the state_dict route)"""
+    import copy
+    import io
+    import pickle
+    if how == "deepcopy":
+        return copy.deepcopy(sys_)
+    if how == "pickle":
+        return pickle.loads(pickle.dumps(sys_))
+    if how == "torchsave":
+        buf = io.BytesIO()
+        torch.save(sys_, buf)
+        buf.seek(0)
+        return torch.load(buf, weights_only=False)
+    new = fresh()
+    new.load_state_dict(sys_.state_dict())
+    return new
 
 
 def gen_clock_case(seed, quick):
@@ -576,6 +611,8 @@ def gen_multi_case(seed, quick):
     rng = random.Random(seed)
     n = rng.choice([2, 2, 3])
     systems = [rng.choice(["lti", "ltv", "nls"]) for _ in range(n)]
+    if rng.random() < 0.6:
+        systems[1] = systems[0]             # a pair of the same class: one may become a copy of the other
     slots = [{"v": rng.choice([-2, 0, 1, 3, 7, 19, 40]), "shape": rng.choice([0, 0, 0, 1])} for _ in range(rng.randint(1, 3))]
     evs = []
     for _ in range(rng.randint(8, 18)):
@@ -586,6 +623,12 @@ def gen_multi_case(seed, quick):
             evs.append({"s": sidx, "ev": "xraise"})
         elif c < 0.47:
             evs.append({"s": sidx, "ev": "reset", "t": None})
+        elif c < 0.57:
+            same = [j for j in range(n) if j != sidx and systems[j] == systems[sidx]]
+            if same:      # system sidx is replaced by a copy of system j (deepcopy / pickle / torch.save / state_dict)
+                evs.append({"s": sidx, "ev": "copy", "of": rng.choice(same), "how": rng.choice(COPY_HOWS)})
+            else:
+                evs.append({"s": sidx, "ev": "call"})
         else:
             how = rng.choice(["assign", "assign", "reset", "ref"])
             c2 = rng.random()
@@ -629,6 +672,18 @@ CORPUS = [
      "events": [_c(0, "reset", {"slot": 0}), _c(0, "call"), _c(1, "reset", {"from": 0}), _c(0, "call"), _c(1, "call"), _c(2, "assign", {"v": 6, "as": "int32"}),
                 _c(2, "call"), _c(1, "assign", {"from": 2}), _c(2, "assign", {"v": 2.5, "as": "float64"}), _c(1, "call"), _c(2, "call"), _c(0, "assign", {"from": 0}), _c(0, "call")]},
 ]
+CORPUS += [
+    # a deep copy (then a pickled copy) of a stepped system: copy and original stepped / reset / assigned in turn
+    {"systems": ["nls", "nls", "nls"], "slots": [{"v": 5, "shape": 0}],
+     "events": [_c(0, "call"), _c(0, "call"), {"s": 1, "ev": "copy", "of": 0, "how": "deepcopy"}, _c(1, "call"), _c(1, "call"), _c(0, "call"), _c(0, "reset", None),
+                _c(1, "call"), {"s": 2, "ev": "copy", "of": 1, "how": "pickle"}, _c(2, "call"), _c(1, "assign", {"slot": 0}), _c(2, "call"), _c(0, "call"), _c(1, "call")]},
+    {"systems": ["ltv", "ltv"], "slots": [{"v": 2, "shape": 0}],
+     "events": [_c(0, "ref", {"slot": 0}), _c(0, "call"), {"s": 1, "ev": "copy", "of": 0, "how": "state_dict"}, _c(1, "call"), _c(0, "call"), _c(0, "call"), _c(1, "reset", None),
+                _c(1, "call"), {"s": 0, "ev": "copy", "of": 1, "how": "torchsave"}, _c(0, "call"), _c(1, "call"), _c(1, "call")]},
+    {"systems": ["lti", "lti", "nls"], "slots": [{"v": 1, "shape": 0}],
+     "events": [_c(0, "call"), {"s": 1, "ev": "copy", "of": 0, "how": "pickle"}, {"s": 0, "ev": "copy", "of": 1, "how": "deepcopy"}, _c(0, "call"), _c(1, "call"), _c(1, "call"),
+                _c(2, "call"), _c(0, "assign", {"from": 1}), _c(1, "reset", None), _c(0, "call")]},
+]
 for _k, _cs in enumerate(CORPUS):
     _cs.update({"kind": "multi", "corpus": _k})
 
@@ -652,6 +707,8 @@ def multi_line(case):
             toks.append(f"{sidx}:call")
         elif ev == "xraise":
             toks.append(f"{sidx}:raise")
+        elif ev == "copy":
+            toks.append(f"{sidx}:copy={e['of']}")
         elif e["t"] is None:
             toks.append(f"{sidx}:reset=0:0")
         else:
@@ -686,8 +743,19 @@ def run_multi_impl(ctx: Ctx, case):
         raised = None
         try:
             if ev == "call":
-                sys_(x, u)
+                out = sys_(x, u)
                 expect[sidx] += 1
+                # the equations at the system's own time (the NLS is time dependent)
+                want = (2.0 * 1.5 + 0.25, 1.5) if kind != "nls" else (0.75 + 0.25 + clocks[sidx], 1.25)
+                got = (float(out[0].reshape(-1)[0]), float(out[1].reshape(-1)[0]))
+                if abs(got[0] - want[0]) > 1e-5 * (1 + abs(want[0])) or abs(got[1] - want[1]) > 1e-6:
+                    ctx.fail({**pub(case), "at": i}, f"multi-eq: call {i} on system {sidx} ({kind}) at its time {clocks[sidx]} returned {got}, its equations give {want}")
+                    return None
+            elif ev == "copy":
+                syss[sidx] = copy_system(syss[e["of"]], e["how"], lambda: make_simple(P, kind))
+                if syss[sidx] is syss[e["of"]]:
+                    raise common.InfraError("copy returned the same object")
+                expect[sidx] = clocks[e["of"]]
             elif ev == "xraise":
                 try:
                     sys_(torch.ones(2, 3, 4), torch.ones(5)) if kind != "nls" else sys_(torch.ones(2), torch.ones(3))
@@ -776,7 +844,7 @@ def run_multi(ctx: Ctx, cases):
 
 # ============================================================================= stream: lin (LTI / LTV)
 
-BATCHES = [[], [], [2], [3], [1], [2, 3], [2, 1], [1, 3], [3, 1, 2]]
+BATCHES = [[], [], [2], [3], [1], [2, 3], [2, 1], [1, 3], [3, 1, 2], [5], [7], [3, 3], [1, 1]]
 
 
 def sub_batch(rng, full):
@@ -797,6 +865,8 @@ def gen_lin_case(seed, quick):
     n, m, p = rng.choice([1, 1, 2, 3, 4, 6]), rng.choice([1, 2, 3, 4]), rng.choice([1, 2, 3, 4, 5])
     T = 1 if kind == "lti" else rng.choice([1, 2, 3, 4, 6])
     full = rng.choice(BATCHES)
+    if rng.random() < 0.15:
+        full = rng.choice([[n], [m], [p], [T], [n, n]])         # batch sizes equal to a feature / time dimension
     dtype = rng.choice(["float64", "float64", "float32"])
     case = {"kind": "lin", "sys": kind, "seed": seed, "n": n, "m": m, "p": p, "T": T, "full": full, "dtype": dtype,
             "bA": sub_batch(rng, full), "bB": sub_batch(rng, full), "bC": sub_batch(rng, full), "bD": sub_batch(rng, full),
@@ -808,6 +878,7 @@ def gen_lin_case(seed, quick):
             "regimes": rng.random() < 0.35,
             # memory layout of every tensor: contiguous, transposed storage, slice of a larger buffer, expanded (stride 0)
             "layout": {k_: rng.choice(["c", "c", "T", "slice", "expand"]) for k_ in ("A", "B", "C", "D", "c1", "c2", "x", "u")},
+            "special": ({"C": "eye", "D": "zero"} if rng.random() < 0.2 else ({rng.choice(["A", "B", "C", "D"]): rng.choice(["eye", "zero"])} if rng.random() < 0.15 else {})),
             "dseed": rng.randrange(1 << 30)}
     evs = []
     nev = rng.randint(3, 8) if (quick or rng.random() < 0.8) else rng.randint(12, 40)     # long roll-outs
@@ -815,7 +886,9 @@ def gen_lin_case(seed, quick):
         c = rng.random()
         if c < 0.55:
             evs.append({"ev": "call", "feed": rng.random() < 0.6, "bx": sub_batch(rng, full), "bu": sub_batch(rng, full),
-                        "same": rng.random() < 0.15, "scalar": rng.random() < 0.5})
+                        "same": rng.random() < 0.15, "scalar": rng.random() < 0.5,
+                        # grad modes and spellings of the same call: the values must not depend on them
+                        "mode": rng.choice(["plain", "plain", "plain", "grad", "no_grad", "inference"]), "kw": rng.random() < 0.25})
         elif c < 0.62:
             evs.append({"ev": "xdim", "which": rng.choice(["x", "u"])})
         elif c < 0.68:
@@ -837,6 +910,13 @@ def gen_lin_case(seed, quick):
             extra.append({"ev": rng.choice(["assign", "assign", "reset", "ref"]), "t": {"slot": k_, "v": slots[k_], "as": "slot"}})
         else:
             extra.append({"ev": "twin", "op": rng.choice(["from_main", "call", "call", "reset", "to_main"])})
+    # copies: a deep copy / pickle / torch.save / state_dict copy of the system is made at some point and then used
+    # interleaved with the original; each follows its own clock and its own matrices
+    if rng.random() < 0.35:
+        hows = COPY_HOWS if kind == "lti" else ["deepcopy", "state_dict"]       # the LTV subclass is local: not picklable
+        extra.append({"ev": "clone", "op": "make", "how": rng.choice(hows)})
+        for _ in range(rng.randint(1, 4)):
+            extra.append({"ev": "clone", "op": rng.choice(["call", "call", "call", "reset"]), "t": rng.randint(-T, T + 1)})
     # stale reads: between calls the caller updates in place a system matrix / constant (through the system's own
     # attribute) or the state tensor it is about to feed back
     for _ in range(rng.choice([0, 0, 1, 2])):
@@ -844,8 +924,18 @@ def gen_lin_case(seed, quick):
             extra.append({"ev": "pokemat", "which": rng.choice(["A", "B", "C", "D", "c1", "c2"]), "how": rng.choice(["mul_", "add_", "setitem"])})
         else:
             extra.append({"ev": "pokex", "how": rng.choice(["mul_", "add_"])})
+    pos_make = None
     for x_ in extra:
-        evs.insert(rng.randint(0, len(evs)), x_)
+        if x_["ev"] == "clone" and x_["op"] == "make":
+            pos_make = rng.randint(0, len(evs))
+            evs.insert(pos_make, x_)
+        elif x_["ev"] == "clone":
+            evs.insert(rng.randint(pos_make + 1, len(evs)), x_)          # the copy is used after it was made
+        else:
+            pos = rng.randint(0, len(evs))
+            evs.insert(pos, x_)
+            if pos_make is not None and pos <= pos_make:
+                pos_make += 1
     case["events"] = evs
     return case
 
@@ -869,6 +959,12 @@ def lin_tensors(case):
             a = a * fac.reshape(tuple(batch) + (1,) * (len(shape) - len(batch)))
         return lay(a.to(dt), case.get("layout", {}).get(name, "c"), len(batch), guards, g)
     A, B, C, D = rnd(case["bA"], (n, n), "A"), rnd(case["bB"], (n, m), "B"), rnd(case["bC"], (p, n), "C"), rnd(case["bD"], (p, m), "D")
+    for nm_, how_ in (case.get("special") or {}).items():          # identity / zero matrices (C = I, D = 0 is the usual system)
+        X_ = {"A": A, "B": B, "C": C, "D": D}[nm_]
+        if how_ == "zero":
+            X_.zero_() if 0 not in X_.stride() else None
+        elif X_.shape[-1] == X_.shape[-2] and 0 not in X_.stride():
+            X_.copy_(torch.eye(X_.shape[-1], dtype=X_.dtype).expand(X_.shape))
     c1 = rnd(case["bc1"], (n,), "c1") if case["c1"] else None
     c2 = rnd(case["bc2"], (p,), "c2") if case["c2"] else None
     case["_guards"] = guards
@@ -965,6 +1061,37 @@ def bitem(X, batch_nd, full, idx):
     return torch.broadcast_to(X, tuple(full) + tuple(core))[tuple(idx)]
 
 
+def lin_exact(ctx, case, i, tens, sl, xb, ub, xn, y, idxs, eps, who):
+    """exact rational equations per batch item for an arbitrary (copy of a) system given by its tensors"""
+    A, B, C, D, c1, c2 = tens
+    full, ltv = case["full"], case["sys"] != "lti"
+    ok = True
+
+    def it(X, b, idx):
+        Xs = X[..., sl, :, :] if (ltv and X.ndim - len(b) == 3) else (X[..., sl, :] if ltv else X)
+        return bitem(Xs, len(b), full, idx).double().tolist()
+    for idx in idxs:
+        Ai, Bi, Ci, Di = it(A, case["bA"], idx), it(B, case["bB"], idx), it(C, case["bC"], idx), it(D, case["bD"], idx)
+        c1i = it(c1, case["bc1"], idx) if c1 is not None else None
+        c2i = it(c2, case["bc2"], idx) if c2 is not None else None
+        xi = bitem(xb, xb.ndim - 1, full, idx).double().tolist()
+        ui = bitem(ub, ub.ndim - 1, full, idx).double().tolist()
+        for nm, M1, M2, cc, got in (("x'", Ai, Bi, c1i, xn), ("y", Ci, Di, c2i, y)):
+            want, mags = frac_affine(M1, M2, cc, xi, ui)
+            try:
+                gi = bitem(got, got.ndim - 1, full, idx).double().tolist()
+            except Exception:
+                ctx.fail({**pub(case), "at": i}, f"lin-shape: {who}: {nm} of shape {tuple(got.shape)} does not broadcast to batch {full}")
+                return False
+            for r_, (w, mg, gv) in enumerate(zip(want, mags, gi)):
+                tol = 64 * eps * mg + 1e-300
+                if not (abs(Fraction(gv) - w) <= tol):
+                    ctx.fail({**pub(case), "at": i, "item": list(idx)},
+                             f"lin-eq: {who}: {nm}[{r_}] = {gv!r} but its own equations at its own time (slice {sl}) give {float(w)!r} (|diff| {float(abs(Fraction(gv) - w)):.3e} > {tol:.3e})")
+                    ok = False
+    return ok
+
+
 def check_lin(ctx: Ctx, case):
     try:
         return _check_lin(ctx, case)
@@ -986,6 +1113,7 @@ def _check_lin(ctx: Ctx, case):
     slot_t = [torch.tensor(v, dtype=torch.int64) for v in case.get("slots", [])]
     slot_keep = [t.clone() for t in slot_t]
     twin, twin_clock = make_simple(P, "lti"), 0
+    clone, clone_clock, clone_tens = None, None, None
 
     def lin_time(spec):
         return slot_t[spec["slot"]] if "slot" in spec else mk_time(spec)
@@ -1044,8 +1172,23 @@ def _check_lin(ctx: Ctx, case):
             xk, uk = x.clone(), u.clone()
             sl = py_slice(case, clock)
             expect_raise = ev == "xdim" or sl is None
+            mode = e.get("mode", "plain")
             try:
-                out = sys_(x, u) if ev != "fwd" else sys_.forward(x, u)
+                if ev == "fwd":
+                    out = sys_.forward(x, u)
+                elif mode == "grad":
+                    xg = x.detach().clone().requires_grad_()
+                    o_ = sys_(state=xg, input=u) if e.get("kw") else sys_(xg, u)
+                    out = (o_[0].detach(), o_[1].detach())
+                elif mode == "no_grad":
+                    with torch.no_grad():
+                        out = sys_(state=x, input=u) if e.get("kw") else sys_(x, u)
+                elif mode == "inference":
+                    with torch.inference_mode():
+                        o_ = sys_(state=x, input=u) if e.get("kw") else sys_(x, u)
+                    out = (o_[0].clone(), o_[1].clone())
+                else:
+                    out = sys_(state=x, input=u) if e.get("kw") else sys_(x, u)
                 raised = None
             except Exception as ex:
                 out, raised = None, ex
@@ -1090,6 +1233,16 @@ def _check_lin(ctx: Ctx, case):
                                                     f"the equations with broadcasting give {bsx + (n,)}, {bsy + (p,)}")
                         case["_lines"], case["_impl"] = [], []
                         return False
+                    # outputs own their memory: no overlap with an argument, a system tensor or each other, no stride-0 items
+                    if mode in ("plain", "no_grad"):
+                        ptrs = {t_.untyped_storage().data_ptr(): nm_ for nm_, t_ in (("state", x), ("input", u), ("A", A), ("B", B), ("C", C), ("D", D), ("c1", c1), ("c2", c2)) if t_ is not None}
+                        for nm_, o_ in (("next state", xn), ("observation", y)):
+                            if o_.untyped_storage().data_ptr() in ptrs or (o_.numel() > 1 and 0 in o_.stride() and o_.shape[o_.stride().index(0)] > 1):
+                                ctx.fail({**pub(case), "at": i}, f"alias: the returned {nm_} shares memory with {ptrs.get(o_.untyped_storage().data_ptr(), 'itself (stride 0)')}")
+                                raise _Abort()
+                        if xn.untyped_storage().data_ptr() == y.untyped_storage().data_ptr():
+                            ctx.fail({**pub(case), "at": i}, "alias: next state and observation share memory")
+                            raise _Abort()
                     if not (bool(torch.isfinite(xn).all()) and bool(torch.isfinite(y).all())):
                         ctx.fail({**pub(case), "at": i}, f"lin-eq: non-finite output at clock {clock} although the exact result is far from overflow")
                         raise _Abort()
@@ -1127,7 +1280,38 @@ def _check_lin(ctx: Ctx, case):
         else:
             tok = None
             try:
-                if ev == "pokex":           # the caller updates in place the state tensor it is going to feed back
+                if ev == "clone":           # a copy of the system, used interleaved with the original
+                    clock_expect = clock
+                    if e["op"] == "make":
+                        try:
+                            clone = copy_system(sys_, e["how"], lambda: make_lin(P, case, *[None if t_ is None else torch.zeros_like(t_).contiguous() for t_ in (A, B, C, D, c1, c2)]))
+                            clone_clock = clock
+                            clone_tens = [None if t_ is None else t_.clone() for t_ in (A, B, C, D, c1, c2)]
+                        except RuntimeError as ex:
+                            # torch refuses to deep-copy / pickle non-leaf tensors that require grad (self.state after a
+                            # call with a requires_grad view): clean-tree behaviour on an exotic combination, not judged
+                            if "deepcopy protocol" not in str(ex):
+                                raise
+                            clone = None
+                    elif clone is not None and e["op"] == "reset":
+                        clone.reset(e["t"])
+                        clone_clock = e["t"]
+                    elif clone is not None:
+                        xc = (torch.randn(tuple(full) + (n,), generator=g, dtype=torch.float64) * case["scale"]).to(dt)
+                        uc = torch.randn(tuple(full) + (m,), generator=g, dtype=torch.float64).to(dt)
+                        slc = py_slice(case, clone_clock)
+                        try:
+                            outc, rc_ = clone(xc, uc), None
+                        except Exception as ex:
+                            outc, rc_ = None, ex
+                        if (rc_ is not None) != (slc is None):
+                            ctx.fail({**pub(case), "at": i}, f"lin-raises: the copy's call at its time {clone_clock} (slice {slc}) {'raised ' + type(rc_).__name__ if rc_ else 'returned instead of raising'}")
+                            raise _Abort()
+                        if rc_ is None:
+                            if not lin_exact(ctx, case, i, clone_tens, slc, xc, uc, outc[0], outc[1], idxs, eps, "copy of the system"):
+                                raise _Abort()
+                            clone_clock += 1
+                elif ev == "pokex":           # the caller updates in place the state tensor it is going to feed back
                     clock_expect = clock
                     if last_x is not None:
                         last_x.mul_(0.5) if e["how"] == "mul_" else last_x.add_(0.25)
@@ -1167,7 +1351,7 @@ def _check_lin(ctx: Ctx, case):
                         sys_.reset()
                         clock_expect, tok = 0, "reset=0:0"
                     else:
-                        sys_.reset(lin_time(e["t"]))
+                        sys_.reset(t=lin_time(e["t"])) if i % 2 else sys_.reset(lin_time(e["t"]))
                         clock_expect, tok = e["t"]["v"], "reset=" + to_wire(e["t"]["v"])
                 elif ev == "assign":
                     sys_.systime = lin_time(e["t"])
@@ -1198,6 +1382,12 @@ def _check_lin(ctx: Ctx, case):
         if now != clock_expect:
             ctx.fail({**pub(case), "at": i}, f"clock-law: after event {i} ({ev}{' ' + e['op'] if ev == 'twin' else ''}) systime={now}, the law gives {clock_expect}")
             ok = False
+        if clone is not None:
+            cnow = clk(ctx, case, clone, i, ev + ", reading the copy")
+            if cnow != clone_clock:
+                ctx.fail({**pub(case), "at": i}, f"clock-shared: event {i} ({ev}{' ' + e['op'] if ev in ('twin', 'clone') else ''}) left the copy's time at {cnow}, its own law gives {clone_clock} "
+                                                 f"(original: {now}); a copy is an independent system")
+                raise _Abort()
         tnow = clk(ctx, case, twin, i, ev + ", reading the second system")
         if tnow != twin_clock:
             ctx.fail({**pub(case), "at": i}, f"clock-shared: event {i} ({ev}{' ' + e['op'] if ev == 'twin' else ''}) left the second system's time at {tnow}, its own law gives {twin_clock} "
@@ -1347,6 +1537,13 @@ def gen_nls_case(seed, quick):
         else:
             x_ = {"ev": "twin", "op": rng.choice(["from_main", "call", "call", "reset", "to_main"])}
         evs.insert(rng.randint(0, len(evs)), x_)
+    # copies: a deep copy of the system (with its reference point) used interleaved with the original
+    if rng.random() < 0.3:
+        pos = rng.randint(0, len(evs))
+        evs.insert(pos, {"ev": "clone", "op": "make"})
+        for _ in range(rng.randint(1, 4)):
+            op = rng.choice(["call", "call", "read", "reset"])
+            evs.insert(rng.randint(pos + 1, len(evs)), {"ev": "clone", "op": op, "x": gen_vals(rng, nx, dtype), "u": gen_vals(rng, nu, dtype), "t": rng.randint(-3, 30)})
     # object re-use: the public `jacargs` attribute is changed between reads (same derivative, other autograd route);
     # views: states / inputs that are rows of a larger trajectory buffer
     for _ in range(rng.choice([0, 0, 1, 2])):
@@ -1354,6 +1551,17 @@ def gen_nls_case(seed, quick):
     for e_ in evs:
         if e_["ev"] in ("call", "ref"):
             e_["lay"] = rng.choice(["c", "c", "slice"])
+            e_["mode"] = rng.choice(["plain", "plain", "plain", "grad", "no_grad"])      # grad modes / keyword vs positional
+            e_["kw"] = rng.random() < 0.5
+        if e_["ev"] == "read":
+            e_["mode"] = rng.choice(["plain", "plain", "no_grad"])
+    # error paths: the user's function raises inside a forward or inside set_refpoint; the caller catches and goes on
+    for _ in range(rng.choice([0, 0, 0, 1, 2])):
+        if rng.random() < 0.5:
+            x_ = {"ev": "xraise", "x": gen_vals(rng, nx, dtype), "u": gen_vals(rng, nu, dtype)}
+        else:
+            x_ = {"ev": "refraise", "x": gen_vals(rng, nx, dtype), "u": gen_vals(rng, nu, dtype), "t": {"v": rng.randint(0, 9), "as": "int64"}}
+        evs.insert(rng.randint(0, len(evs)), x_)
     # stale reads / aliases: the caller updates in place (add_, copy_, item assignment) a tensor it handed to the system —
     # the state/input of the last forward, the state/input/time given to set_refpoint — and goes on
     for _ in range(rng.choice([0, 0, 1, 1, 2, 3])):
@@ -1376,7 +1584,11 @@ def make_nls(P, case):
             tt = torch.as_tensor(t).reshape(()).to(state.dtype)
             return [state[..., i] for i in range(nx)] + [input[..., j] for j in range(nu)] + [tt]
 
+        bad = False
+
         def state_transition(self, state, input, t=None):
+            if self.bad:
+                raise ValueError("user function raises")
             vals, cache = self._vals(state, input, t), {}
             return torch.stack([tree_torch(f, vals, state.dtype, cache) for f in fs], -1)
 
@@ -1432,6 +1644,13 @@ def nls_sim(case):
                 info["x_res"], info["u_res"] = list(objs[ox]), list(objs[ou])
             else:
                 ref_ok = False          # a partial update may have happened: the reference objects are not tracked further
+        elif k_ == "xraise":
+            # the code assigns self.state / self.input before the user function runs: they are the failed call's tensors
+            last = (new(e["x"]), new(e["u"]))
+            info["tok"] = f"xraise {len(e['x'])} {wire_list(e['x'])} {len(e['u'])} {wire_list(e['u'])}"
+        elif k_ == "refraise":
+            info["tok"] = f"refraise {len(e['x'])} {wire_list(e['x'])} {len(e['u'])} {wire_list(e['u'])} {to_wire(e['t']['v'])}"
+            ref_ok = False                # three of the five attributes are overwritten before the user function raises
         elif k_ == "reset":
             clock = 0 if e["t"] is None else int(e["t"]["v"])
             info["tok"] = "reset=" + (to_wire(0) if e["t"] is None else to_wire(e["t"]["v"]))
@@ -1479,7 +1698,9 @@ def nls_line(case, alias_t, alias_x):
     for t in case["fs"] + case["gs"]:
         tree_tokens(t, toks)
     ev = [tok for _, tok in nls_model_events(case)]
-    return f"c15.nls {alias_t} {alias_x} 0 {len(case['fs'])} {len(case['gs'])} " + " ".join(toks) + " " + " ".join(ev)
+    # third flag 1: error paths as the code has them (a raising set_refpoint / forward leaves a partial update behind —
+    # outside the property, see notes; the model follows the code there)
+    return f"c15.nls {alias_t} {alias_x} 1 0 {len(case['fs'])} {len(case['gs'])} " + " ".join(toks) + " " + " ".join(ev)
 
 
 def parse_nls_reply(rep, case):
@@ -1585,6 +1806,7 @@ def _check_nls(ctx: Ctx, case, model_doc=None, model_alias=None, oracle_budget=N
     slot_t = [torch.tensor(sl["v"] if sl["shape"] == 0 else [sl["v"]], dtype=torch.int64) for sl in case.get("slots", [])]
     slot_keep = [t.clone() for t in slot_t]
     twin, twin_clock = make_simple(P, "lti"), 0
+    clone, clone_clock, clone_ref = None, None, None
     clock, last, ref = 0, None, None          # python-side bookkeeping of the documented semantics
     ok = True
     handed = []                               # [tensor, expected content]: the system never modifies the caller's tensors
@@ -1619,7 +1841,18 @@ def _check_nls(ctx: Ctx, case, model_doc=None, model_alias=None, oracle_budget=N
             handed += [[x, x.clone()], [u, u.clone()]]
             objs["lastX"], objs["lastU"] = x, u
             try:
-                f, g_ = sys_(x, u)
+                md_ = e.get("mode", "plain")
+                if md_ == "grad":
+                    xg = x.detach().clone().requires_grad_()
+                    objs["lastX"] = xg
+                    handed[-2] = [xg, xg.detach().clone()]
+                    f, g_ = sys_(state=xg, input=u) if e.get("kw") else sys_(xg, u)
+                    f, g_ = f.detach(), g_.detach()
+                elif md_ == "no_grad":
+                    with torch.no_grad():
+                        f, g_ = sys_(state=x, input=u) if e.get("kw") else sys_(x, u)
+                else:
+                    f, g_ = sys_(state=x, input=u) if e.get("kw") else sys_(x, u)
             except Exception as ex:
                 ctx.fail({**strip(case), "at": i}, f"nls-raises: call raised {type(ex).__name__}: {str(ex)[:100]}")
                 return False
@@ -1657,7 +1890,11 @@ def _check_nls(ctx: Ctx, case, model_doc=None, model_alias=None, oracle_budget=N
                     handed.append([t_, t_.clone()])
             can = (e["x"] is not None or last is not None) and (e["u"] is not None or last is not None)
             try:
-                r = sys_.set_refpoint(state=xa, input=ua, t=ta)
+                if e.get("mode") == "no_grad":
+                    with torch.no_grad():
+                        r = sys_.set_refpoint(state=xa, input=ua, t=ta) if e.get("kw", True) else sys_.set_refpoint(xa, ua, ta)
+                else:
+                    r = sys_.set_refpoint(state=xa, input=ua, t=ta) if e.get("kw", True) else sys_.set_refpoint(xa, ua, ta)
                 raised = None
                 if r is not sys_:
                     ctx.fail({**strip(case), "at": i}, "refpoint-return: set_refpoint does not return the system")
@@ -1703,6 +1940,67 @@ def _check_nls(ctx: Ctx, case, model_doc=None, model_alias=None, oracle_budget=N
             except Exception as ex:
                 ctx.fail({**strip(case), "at": i}, f"clock-raises: {k_} raised {type(ex).__name__}: {str(ex)[:100]}")
                 return False
+        elif k_ in ("xraise", "refraise"):     # the user's function raises; the caller catches the exception and goes on
+            clock_expect = clock
+            xa, ua = T(e["x"]), T(e["u"])
+            handed += [[xa, xa.clone()], [ua, ua.clone()]]
+            sys_.bad = True
+            try:
+                if k_ == "xraise":
+                    sys_(xa, ua)
+                else:
+                    sys_.set_refpoint(xa, ua, mk_time(e["t"]))
+                escaped = False
+            except ValueError:
+                escaped = True
+            finally:
+                sys_.bad = False
+            if not escaped:
+                ctx.fail({**strip(case), "at": i}, f"error-path: the exception raised by the user's function inside {'forward' if k_ == 'xraise' else 'set_refpoint'} did not reach the caller")
+                raise _Abort()
+            if k_ == "xraise":
+                objs["lastX"], objs["lastU"] = xa, ua          # (code) self.state / self.input are the failed call's tensors
+                last = (e["x"], e["u"])
+            elif ref is not None:
+                ref["ok"] = False
+            if md and md[1] != "R":
+                ctx.disagree("nls.error-path", {**strip(case), "at": i}, f"{k_}: implementation raised, model {md[1]}")
+        elif k_ == "clone":         # a deep copy of the system, used interleaved with the original
+            import copy as _copy
+            clock_expect = clock
+            if e["op"] == "make":
+                try:
+                    clone, clone_clock = _copy.deepcopy(sys_), clock
+                    clone_ref = dict(ref) if (ref is not None and ref["ok"]) else None
+                except RuntimeError as ex:
+                    # torch refuses to deep-copy non-leaf tensors that require grad (the system holds the caller's
+                    # requires_grad state as self.state): clean-tree behaviour on an exotic combination, not judged
+                    if "deepcopy protocol" not in str(ex):
+                        raise
+                    clone = None
+                    ctx.count("nls.clone.skipped-nonleaf")
+            elif clone is not None and e["op"] == "reset":
+                clone.reset(e["t"])
+                clone_clock = e["t"]
+            elif clone is not None and e["op"] == "call":
+                fc, gc = clone(torch.tensor(e["x"], dtype=dt), torch.tensor(e["u"], dtype=dt))
+                gotc = fc.double().tolist() + gc.double().tolist()
+                envc = [mp.mpf(v) for v in e["x"]] + [mp.mpf(v) for v in e["u"]] + [mp.mpf(clone_clock)]
+                eac = [abs(v) for v in e["x"]] + [abs(v) for v in e["u"]] + [abs(clone_clock)]
+                for j, (tr, gv) in enumerate(zip(case["fs"] + case["gs"], gotc)):
+                    want = tree_mp(tr, envc)
+                    mg_ = tree_mag(tr, eac, nv)[0]
+                    tol = 64 * eps * max(1.0, tree_size(tr) / 24.0) * mg_ + floor_(case["dtype"], mg_, tree_size(tr))
+                    if not (abs(mp.mpf(gv) - want) <= tol):
+                        ctx.fail({**strip(case), "at": i}, f"nls-eq: the copy's call output {j} = {gv!r}, {'f' if j < nf else 'g'}(x,u,t) at its own time {clone_clock} = {float(want)!r} "
+                                                           f"(original's time {clock}; tol {tol:.2e})")
+                        raise _Abort()
+                clone_clock += 1
+            elif clone is not None and clone_ref is not None:
+                partsc = flat_lin(clone)
+                gotc = {nm: p_.double().flatten().tolist() for nm, p_ in zip(["A", "B", "C", "D", "c1", "c2"], partsc)}
+                cinfo = {**strip(case), "at": i, "site": SITE, "ref_t_mode": clone_ref["mode"], "read_clock": clone_clock, "of": "copy"}
+                ok &= nls_oracles(ctx, case, cinfo, clone, clone_ref, gotc, eps, dt, rr, True)
         elif k_ == "jacargs":       # public attribute changed between reads: same derivative by another autograd route
             clock_expect = clock
             sys_.jacargs = {"vectorize": e["v"][0], "strategy": e["v"][1]}
@@ -1710,16 +2008,17 @@ def _check_nls(ctx: Ctx, case, model_doc=None, model_alias=None, oracle_budget=N
             clock_expect = clock
             if sim[i].get("do"):
                 tobj = objs[e["tgt"]]
-                if e["tgt"] == "refT":
-                    tobj.add_(3)
-                elif e["how"] == "add_":
-                    tobj.add_(e["delta"])
-                elif e["how"] == "copy_":
-                    tobj.copy_(torch.tensor([e["fill"] + 0.25 * q_ for q_ in range(tobj.numel())], dtype=dt).reshape(tobj.shape))
-                elif tobj.ndim == 0:
-                    tobj.fill_(e["fill"])
-                else:
-                    tobj[e["j"] % tobj.numel()] = e["fill"]
+                with torch.no_grad():           # (a requires_grad leaf may only be updated in place without autograd)
+                    if e["tgt"] == "refT":
+                        tobj.add_(3)
+                    elif e["how"] == "add_":
+                        tobj.add_(e["delta"])
+                    elif e["how"] == "copy_":
+                        tobj.copy_(torch.tensor([e["fill"] + 0.25 * q_ for q_ in range(tobj.numel())], dtype=dt).reshape(tobj.shape))
+                    elif tobj.ndim == 0:
+                        tobj.fill_(e["fill"])
+                    else:
+                        tobj[e["j"] % tobj.numel()] = e["fill"]
                 if e["tgt"] != "refT" and tobj.double().reshape(-1).tolist() != sim[i]["content"]:
                     raise common.InfraError("harness: poke simulation out of step with the tensor")
                 for h_ in handed:
@@ -1747,7 +2046,11 @@ def _check_nls(ctx: Ctx, case, model_doc=None, model_alias=None, oracle_budget=N
         else:   # read
             clock_expect = clock
             try:
-                parts = flat_lin(sys_)
+                if e.get("mode") == "no_grad":
+                    with torch.no_grad():
+                        parts = flat_lin(sys_)
+                else:
+                    parts = flat_lin(sys_)
                 raised = None
             except Exception as ex:
                 parts, raised = None, ex
@@ -1824,6 +2127,12 @@ def _check_nls(ctx: Ctx, case, model_doc=None, model_alias=None, oracle_budget=N
         if now != clock_expect:
             ctx.fail({**strip(case), "at": i}, f"clock-law: after event {i} ({k_}{' ' + e['op'] if k_ == 'twin' else ''}) systime={now}, the law gives {clock_expect}")
             ok = False
+        if clone is not None:
+            cnow = clk(ctx, strip(case), clone, i, k_ + ", reading the copy")
+            if cnow != clone_clock:
+                ctx.fail({**strip(case), "at": i}, f"clock-shared: event {i} ({k_}{' ' + e['op'] if k_ in ('twin', 'clone') else ''}) left the copy's time at {cnow}, its own law gives {clone_clock} "
+                                                   f"(original: {now}); a copy is an independent system")
+                raise _Abort()
         tnow = clk(ctx, strip(case), twin, i, k_ + ", reading the second system")
         if tnow != twin_clock:
             ctx.fail({**strip(case), "at": i}, f"clock-shared: event {i} ({k_}{' ' + e['op'] if k_ == 'twin' else ''}) left the second system's time at {tnow}, its own law gives {twin_clock} "
@@ -1976,7 +2285,8 @@ def gen_bmv_case(seed, quick):
             "b1": b1, "b2": sub_batch(rng, full), "b3": sub_batch(rng, full), "same": same,
             "scale": rng.choice([3.0, 3.0, 3.0] + ([1e-40, 1e40, 1e-9] if dtype == "float64" else [1e-8, 1e8])),
             "regimes": rng.random() < 0.3, "layout": [rng.choice(["c", "c", "T", "slice", "expand"]) for _ in range(3)],
-            "lie": rng.random() < 0.12, "out": rng.random() < 0.15, "dyadic": rng.random() < 0.4, "dseed": rng.randrange(1 << 30)}
+            "lie": rng.random() < 0.15, "lie_which": rng.randint(1, 7), "mode": rng.choice(["plain", "plain", "plain", "grad", "no_grad", "inference"]),
+            "out": rng.random() < 0.15, "dyadic": rng.random() < 0.4, "dseed": rng.randrange(1 << 30)}
 
 
 def check_bmv(ctx: Ctx, case):
@@ -2002,33 +2312,61 @@ def check_bmv(ctx: Ctx, case):
         return lay(a.to(dt), how, len(batch), guards, g)
     lie = case["lie"]
     same = case.get("same", False)
+    if lie:
+        m = 3                                   # so3 LieTensors have last dimension 3
+        if fn != "bmv":
+            n = 3
+    wrap = (lambda t_: P.so3(t_)) if lie else (lambda t_: t_)      # every argument also as a LieTensor (duck typing)
+    which = case.get("lie_which", 7)            # bit mask: which arguments are wrapped
     if fn == "bmv":
-        if lie:
-            m = 3
         M, v = rnd(case["b1"], (n, m)), rnd(case["b2"], (m,))
-        args = [M, P.so3(v) if lie else v]
+        args = [wrap(M) if which & 1 else M, wrap(v) if which & 2 else v]
         raw = [M, v]
     elif fn == "bvv":
         l = rnd(case["b1"], (n,))
         r = l if same else rnd(case["b2"], (m,))
-        args, raw = [l, r], [l, r]
+        args, raw = [wrap(l) if which & 1 else l, wrap(r) if which & 2 else r], [l, r]
     else:
         l, M = rnd(case["b1"], (n,)), rnd(case["b2"], (n, m))
         r = l if same else rnd(case["b3"], (m,))
-        args, raw = [l, M, r], [l, M, r]
+        args, raw = [wrap(l) if which & 1 else l, wrap(M) if which & 2 else M, wrap(r) if which & 4 else r], [l, M, r]
+    if not lie:
+        args = list(raw)
     keep = [a.clone() for a in raw]
+    mode = case.get("mode", "plain")            # grad modes: the values must not depend on them
+    if mode == "grad":
+        args = [a_.detach().clone().requires_grad_() if type(a_) is torch.Tensor else a_ for a_ in args]
+    import contextlib
+    cm = torch.no_grad() if mode == "no_grad" else (torch.inference_mode() if mode == "inference" else contextlib.nullcontext())
     try:
-        if fn == "bmv":
-            if case["out"]:
-                bs = torch.broadcast_shapes(tuple(case["b1"]), tuple(case["b2"]))
-                buf = torch.empty(tuple(bs) + (n, 1), dtype=dt)
-                y = P.bmv(args[0], args[1], out=buf)
+        with cm:
+            if fn == "bmv":
+                if case["out"] and mode != "grad":
+                    bs = torch.broadcast_shapes(tuple(case["b1"]), tuple(case["b2"]))
+                    buf = torch.empty(tuple(bs) + (n, 1), dtype=dt)
+                    y = P.bmv(args[0], args[1], out=buf)
+                else:
+                    y = P.bmv(*args)
+            elif fn == "bvv":
+                if case["out"] and mode != "grad":
+                    bs = torch.broadcast_shapes(*[tuple(a_.shape[:-1]) for a_ in raw])
+                    buf = torch.empty(tuple(bs) + (n, m), dtype=dt)
+                    y = P.bvv(args[0], args[1], out=buf)
+                else:
+                    y = P.bvv(*args)
             else:
-                y = P.bmv(*args)
-        elif fn == "bvv":
-            y = P.bvv(*args)
-        else:
-            y = P.bvmv(*args)
+                y = P.bvmv(*args)
+        if case["out"] and fn != "bvmv" and mode != "grad":
+            if not torch.equal(buf.reshape(y.shape) if buf.numel() == y.numel() else buf, y):
+                ctx.fail(pub(case), f"out: {fn}(…, out=buf) did not leave the result in buf")
+                return False
+        y = y.detach().clone() if mode in ("grad", "inference") else y
+        # the result owns its memory (no overlap with an argument, no stride-0 items) unless `out=` was given
+        if not (case["out"] and fn != "bvmv") and mode == "plain":
+            if any(y.untyped_storage().data_ptr() == a_.untyped_storage().data_ptr() for a_ in raw) or \
+                    (y.numel() > 1 and any(st_ == 0 and sz_ > 1 for st_, sz_ in zip(y.stride(), y.shape))):
+                ctx.fail(pub(case), f"alias: the result of {fn} shares memory with an argument or overlaps itself")
+                return False
     except Exception as ex:
         ctx.fail(pub(case), f"bmv-raises: {fn} raised {type(ex).__name__}: {str(ex)[:100]}")
         return False
@@ -2148,6 +2486,21 @@ LIN_CORPUS = [
     _lin(6, "ltvp", 2, 1, 2, 2, [], [_call(), {"ev": "pokex", "how": "add_"}, _call(True), {"ev": "pokemat", "which": "B", "how": "add_"}, {"ev": "twin", "op": "from_main"}, _call(True),
                                      {"ev": "twin", "op": "call"}, {"ev": "pokemat", "which": "D", "how": "setitem"}, _call(), {"ev": "twin", "op": "to_main"}, _call(True),
                                      {"ev": "assign", "t": {"slot": 0, "v": 1, "as": "slot"}}, _call(), {"ev": "pokemat", "which": "c2", "how": "mul_"}, _call(True)]),
+    # a copy of an LTV system made in the middle of a roll-out: both continue with their own time slices
+    _lin(9, "ltvp", 2, 1, 2, 3, [], [_call(), _call(True), {"ev": "clone", "op": "make", "how": "deepcopy"}, {"ev": "clone", "op": "call", "t": 0}, {"ev": "clone", "op": "call", "t": 0},
+                                     _call(True), {"ev": "clone", "op": "reset", "t": -1}, _call(True), {"ev": "clone", "op": "call", "t": 0}, _set("reset", None), {"ev": "clone", "op": "call", "t": 0}, _call()]),
+    _lin(10, "lti", 2, 2, 2, 1, [2], [_call(bx=[2], bu=[2]), {"ev": "clone", "op": "make", "how": "pickle"}, {"ev": "clone", "op": "call", "t": 0}, _call(True, bu=[2]),
+                                      {"ev": "pokemat", "which": "A", "how": "mul_"}, {"ev": "clone", "op": "call", "t": 0}, _call(True, bu=[2])]),
+    _lin(11, "ltvi", 2, 1, 1, 4, [], [_call(), {"ev": "clone", "op": "make", "how": "state_dict"}, _call(True), _call(True), {"ev": "clone", "op": "call", "t": 0}, {"ev": "clone", "op": "call", "t": 0},
+                                      {"ev": "clone", "op": "call", "t": 0}, {"ev": "clone", "op": "call", "t": 0}, _call(True)]),
+    # the usual structure: full state observed (C = I, D = 0, no c2), square system
+    _lin(12, "lti", 3, 2, 3, 1, [2], [_call(bx=[2], bu=[2]), _call(True, bu=[]), _call(bx=[], bu=[2], same=False)], special={"C": "eye", "D": "zero"}, c2=False),
+    _lin(13, "lti", 2, 2, 2, 1, [], [_call(), _call(True), _call(same=True)], special={"A": "eye", "B": "zero"}, c1=False, c2=False),
+    _lin(14, "lti", 3, 1, 3, 1, [2], [_call(scalar=False), _call(True), dict(_call(bx=[2], bu=[2]), mode="no_grad"), dict(_call(True), mode="grad", kw=True)],
+         special={"C": "eye", "D": "zero"}, c2=False, bA=[], bB=[], bC=[], bD=[], bc1=[]),
+    # the same calls spelled with keywords and run under every grad mode
+    _lin(15, "lti", 2, 2, 2, 1, [3], [dict(_call(bx=[3], bu=[3]), mode="no_grad"), dict(_call(bx=[3], bu=[3]), mode="inference", kw=True), dict(_call(True, bu=[3]), mode="grad"),
+                                      dict(_call(True, bu=[]), kw=True), _set("reset", 2), dict(_call(bx=[], bu=[3]), mode="no_grad", kw=True)]),
     # extreme magnitudes
     _lin(7, "lti", 3, 2, 2, 1, [2], [_call(bx=[2], bu=[2]), _call(bx=[], bu=[2])], scale=1e-30),
     _lin(8, "lti", 3, 2, 2, 1, [2], [_call(bx=[2], bu=[2]), _call(bx=[], bu=[2])], scale=1e8),
@@ -2197,6 +2550,19 @@ NLS_CORPUS = [
          [_ncall([1.0], [2.0], True), _nref(None, None, "live"), _R, _ncall([3.0], [1.0]), _R, {"ev": "twin", "op": "from_main"}, {"ev": "twin", "op": "call"}, {"ev": "twin", "op": "to_main"}, _R]),
 ]
 NLS_CORPUS.append(dict(NLS_CORPUS[2], corpus=5, seed=9105, dtype="float32"))
+# positional and keyword spellings, grad modes, a user function that raises inside forward / set_refpoint
+NLS_CORPUS.append(_nls(7, 2, 1, [("*", _X0, ("V", 2)), ("+", _X1, ("*", ("V", 3), _X0))], [("-", _X0, ("V", 2))],
+                       [dict(_ncall([1.0, 2.0], [0.5]), mode="no_grad", kw=True), dict(_nref([0.5, 1.5], [2.0], {"v": 3, "as": "int64"}), kw=False), dict(_R, mode="no_grad"),
+                        dict(_ncall([2.0, 0.0], [1.0]), mode="grad", kw=False), {"ev": "xraise", "x": [9.0, 9.0], "u": [9.0]}, _ncall([1.0, 1.0], [1.0]), _R,
+                        dict(_nref(None, None, None), mode="no_grad", kw=True), _R, {"ev": "refraise", "x": [4.0, 4.0], "u": [4.0], "t": {"v": 2, "as": "int64"}},
+                        dict(_nref([0.25, 0.5], [1.0], {"v": 1, "as": "int64"}), mode="grad", kw=False), _R, _ncall([0.0, 1.0], [2.0]), _R]))
+# a deep copy taken after set_refpoint: copy and original stepped / reset in turn; both keep their own time in f, g and both
+# keep the reference point
+NLS_CORPUS.append(_nls(6, 1, 1, [("+", ("*", _X0, ("V", 2)), ("V", 1))], [("*", _X0, ("V", 2))],
+                       [_ncall([1.0], [0.5]), _nref(None, None, None), {"ev": "clone", "op": "make"}, {"ev": "clone", "op": "call", "x": [2.0], "u": [0.25], "t": 0},
+                        {"ev": "clone", "op": "call", "x": [1.5], "u": [0.0], "t": 0}, _ncall([3.0], [1.0]), {"ev": "clone", "op": "read", "x": [0.0], "u": [0.0], "t": 0}, _R,
+                        {"ev": "clone", "op": "reset", "x": [0.0], "u": [0.0], "t": 7}, _ncall([0.5], [0.5]), {"ev": "clone", "op": "call", "x": [1.0], "u": [1.0], "t": 0},
+                        _set("reset", None), {"ev": "clone", "op": "call", "x": [1.0], "u": [2.0], "t": 0}, _ncall([2.0], [2.0]), _R]))
 
 
 def _bmv(k, fn, n, m, full, b1, b2, b3=(), **kw):
@@ -2219,6 +2585,12 @@ BMV_CORPUS = [
     _bmv(9, "bmv", 3, 2, [3], [3], [3], dtype="float32", regimes=True),
     _bmv(10, "bmv", 2, 2, [2], [2], [], scale=1e40, dyadic=False),
     _bmv(11, "bvv", 7, 7, [2], [2], [2], layout=["expand", "expand", "c"]),
+    _bmv(12, "bvv", 2, 3, [2], [2], [2], out=True),
+    _bmv(13, "bvv", 3, 3, [2], [2], [2], lie=True, lie_which=2, dyadic=False),
+    _bmv(14, "bvmv", 3, 3, [2], [2], [], [2], lie=True, lie_which=5, dyadic=False),
+    _bmv(15, "bmv", 2, 3, [3], [3], [3], lie=True, lie_which=1, mode="no_grad"),
+    _bmv(16, "bmv", 3, 2, [3], [3], [], mode="grad"),
+    _bmv(17, "bvmv", 2, 2, [3], [3], [3], [3], mode="inference"),
 ]
 CORPORA = {"multi": CORPUS, "lin": LIN_CORPUS, "nls": NLS_CORPUS, "bmv": BMV_CORPUS}
 
@@ -2240,11 +2612,11 @@ def run(ctx: Ctx):
     run_lin(ctx, [dict(c) for c in LIN_CORPUS])
     run_bmv(ctx, [dict(c) for c in BMV_CORPUS])
     run_nls(ctx, [dict(c) for c in NLS_CORPUS], 10 ** 6)
-    run_clock(ctx, [gen_clock_case(s, q) for s in seeds(ctx.pick(600, 8000))])
-    run_multi(ctx, [gen_multi_case(s, q) for s in seeds(ctx.pick(400, 6000))])
-    run_lin(ctx, [gen_lin_case(s, q) for s in seeds(ctx.pick(600, 10000))])
-    run_bmv(ctx, [gen_bmv_case(s, q) for s in seeds(ctx.pick(300, 6000))])
-    run_nls(ctx, [gen_nls_case(s, q) for s in seeds(ctx.pick(500, 9000))], ctx.pick(600, 11000))
+    run_clock(ctx, [gen_clock_case(s, q) for s in seeds(ctx.pick(600, 6000))])
+    run_multi(ctx, [gen_multi_case(s, q) for s in seeds(ctx.pick(400, 5000))])
+    run_lin(ctx, [gen_lin_case(s, q) for s in seeds(ctx.pick(600, 8000))])
+    run_bmv(ctx, [gen_bmv_case(s, q) for s in seeds(ctx.pick(300, 5000))])
+    run_nls(ctx, [gen_nls_case(s, q) for s in seeds(ctx.pick(500, 7000))], ctx.pick(600, 9000))
 
 
 def search(ctx: Ctx):
